@@ -53,11 +53,13 @@ for f in glob.glob(os.path.join(SEED, "**", "*.go"), recursive=True):
 res["demo_placed"] = placed
 demo_cmd = meta["demo_cmd"]
 demo_cmd = re.sub(r"^\s*cd\s+\S+\s*&&\s*", "", demo_cmd)
-rc0, out0 = sh("timeout 1500 " + demo_cmd)
+import shlex
+demo_run = "timeout 1500 bash -c " + shlex.quote(demo_cmd)
+rc0, out0 = sh(demo_run)
 res["demo_without_change_rc"] = rc0
 rc, out = sh("git apply " + patch)
 res["patch_applies"] = rc == 0
-rc1, out1 = sh("timeout 1500 " + demo_cmd)
+rc1, out1 = sh(demo_run)
 res["demo_with_change_rc"] = rc1
 res["demo_with_change_tail"] = out1[-1500:]
 pkgs = " ".join(sorted({t for item in (meta.get("packages_tested") or []) for t in re.findall(r"\./[\w./-]+", str(item))}))
